@@ -45,14 +45,12 @@ Definition field_lines (pkg parent : bytes) (in_oneof : bool) (i : N) (f : ofiel
        match f_tenant f with Some t => t | None => [] end;
        match f_foreign f with Some p => fst p | None => [] end;
        match f_foreign f with Some p => snd p | None => [] end],
-      (* an optional array / map: the linked descriptor keeps the field in its (synthetic) oneof but
-         not the proto3_optional flag (label repeated) — what protodesc.NewFiles then rejects *)
       [i; pt; b2n (f_repeated f); b2n (f_required f); b2n (f_flatten f);
-       b2n (in_oneof || (f_optional f && f_repeated f));
+       b2n in_oneof;
        b2n (f_primary f); b2n (match f_tenant f with Some _ => true | None => false end);
        b2n (match f_filter f with Some _ => true | None => false end);
        b2n (match f_foreign f with Some _ => true | None => false end);
-       b2n (f_optional f && negb (f_repeated f))])
+       b2n (f_optional f)])
   :: match f_filter f with Some l => [(3, l, [])] | None => [] end.
 
 Fixpoint fields_lines (pkg parent : bytes) (in_oneof : bool) (i : N) (l : list ofield) : list line :=
@@ -176,7 +174,7 @@ Definition c17_check (c : c17case) : bool :=
                  && (negb cok || (list_eqb line_eqb (flat_map (fun e => client_lines (client_view e)) es) clines
                                   && grouping_ok es cs))
       | Err s => negb ok && (err_class s =? errc)
-      | Panic _ => negb ok && (errc =? 100)      (* the real compiler panicked *)
+      | Panic _ => negb ok && (errc =? 100)      (* the real compiler panicked (the model never says so) *)
       | _ => false
       end
   end.
